@@ -100,8 +100,8 @@ Proof.
     assert (E1 : Z.to_N ((i - 1) / n) = ((Z.to_N i - 1) / N.of_nat (length chars))%N).
     { unfold n. rewrite Z2N.inj_div by lia. rewrite Z2N.inj_sub by lia. rewrite Hc. reflexivity. }
     assert (E2 : nth (Z.to_nat ((i - 1) mod n)) chars "?" = ch chars ((Z.to_N i - 1) mod N.of_nat (length chars))).
-    { unfold ch. f_equal. unfold n. rewrite <- Hc. rewrite <- (Z2N.inj_sub i 1) by lia. rewrite <- Z2N.inj_mod by lia.
-      rewrite Z_N_nat. reflexivity. }
+    { unfold ch. f_equal. rewrite <- Z_N_nat. f_equal.
+      unfold n. rewrite Z2N.inj_mod by lia. rewrite Z2N.inj_sub by lia. rewrite Hc. reflexivity. }
     rewrite E1, E2. reflexivity.
   - apply Z.ltb_ge in Pos. assert (i = 0%Z) by lia. subst i. cbn [Z.to_N N.ltb N.compare].
     rewrite Tail. reflexivity.
